@@ -152,6 +152,18 @@ func (ch *Chain) execOracle(e M) (Outcome, bool) {
 		write()
 		after := ch.ProjectOracle()
 		return Outcome{OK: true, Resp: M{"applied": absx.Canon(before) != absx.Canon(after)}}, true
+	case "SetClient":
+		info, err := f.Child.BridgeInfo.Get(ch.Ctx)
+		if err != nil {
+			panic(err)
+		}
+		info.L1ClientId = absx.Str(e["client"])
+		r := Deliver(f, ch.Ctx, &opchildtypes.MsgSetBridgeInfo{Sender: ch.C.Addr(absx.Str(e["signer"])), BridgeInfo: info})
+		if !r.OK {
+			return Outcome{OK: false, Err: r.ErrString()}, true
+		}
+		v, _ := attr(r.Events, opchildtypes.EventTypeSetBridgeInfo, opchildtypes.AttributeKeyL1ClientId)
+		return Outcome{OK: true, Resp: M{"client": v}}, true
 	case "UpdateOracle":
 		height := absx.Int(e["height"])
 		eci := cometabci.ExtendedCommitInfo{Round: oracleRound}
